@@ -63,6 +63,22 @@ func (c *Client) Engine() ndn.Engine {
 	return c.engine
 }
 
+// handOver passes v to the client goroutine and never blocks the caller.
+//
+// The callers are callbacks of the engine, which runs them with its PIT lock held,
+// and one Data (or one timeout) can resolve any number of pending Interests of the
+// same name in a single pass. The client goroutine needs that very lock to express
+// an Interest, so while such a pass is under way it may not be reading its channels:
+// a callback that waits for room in a full channel would wait for ever, with the
+// lock held. When the channel is full the value is parked in a goroutine instead.
+func handOver[T any](ch chan T, v T) {
+	select {
+	case ch <- v:
+	default:
+		go func() { ch <- v }()
+	}
+}
+
 // main goroutine for all client processing
 func (c *Client) run() {
 	for {
